@@ -645,6 +645,23 @@ theorem lagging_state_fail_stop {E : Store} {N : Node} {us1 us2 : List Crash.Uni
 /-- **The model with failing executions extends the model the theorems are about.** -/
 theorem feedB_no_bad (N : Node) (b : Block) : feedB (fun _ => false) N b = feed N b := feedB_valid N b
 
+/-- **Any arrival when executions may fail** — `bad` is any set of blocks whose execution fails (a forged state root:
+the block is rejected on the tip, stored unexecuted off the tip, and a reorganisation through it fails in the
+roll-forward after the blocks below it were executed and committed): the node stays coherent, and every unit
+prefix of what the arrival wrote is recoverable to the chain before it, after it, or in between. -/
+theorem feedB_any_coherent {U : Block → Prop} {g : Block} (T : Tree U g) (bad : Nat → Bool) {N : Node} {chain : List Block}
+    (C : Coh U g N chain) {b : Block} (hU : U b) :
+    ∃ chain', Coh U g (feedB bad N b).1 chain' ∧
+      (feedB bad N b).1.D = applyUnits (feedB bad N b).2.2 N.D ∧
+      ∀ k, RecState U g (Legit chain chain') (crash (feedB bad N b).2.2 k N.D) :=
+  feedB_hist T bad C hU
+
+/-- **Every history, with any set of failing blocks**: `history_coherent` for `feedB bad` in place of `feed`. -/
+theorem history_coherent_with_failures {U : Block → Prop} {g : Block} (T : Tree U g) (bad : Nat → Bool)
+    (es : List Ev) (hU : ∀ e ∈ es, U e.block) :
+    ∃ N chain, runEvsB bad ⟨genesisStore g, g, g.root, []⟩ es = .ok N ∧ Coh U g N chain :=
+  historyB_coherent T bad es _ [g] (coh_genesis T) hU
+
 /-- **Crash inside a reorganisation that fails** (some block of the new branch does not execute): the node stays
 coherent on the old chain with the old best block, and every unit prefix of what the failed attempt wrote is a
 coherent store with that same chain. -/
@@ -721,8 +738,8 @@ end Ex
 * Exact store equality after re-feeding (`connect_replay_converges`, `reorg_replay_converges_partial`) is proved per
   operation; over histories (`history_coherent`, `journal_prefix_recovers`) the statement is coherence + "the chain is
   one the crash-free run reaches", not equality of the final stores (false literally: witness 1).
-* The orphan pool has no capacity in the model (`orphanpool.go` evicts); invalid blocks (`feedB`) are covered for a
-  failing reorganisation (`failed_reorg_crash_recover`) and tied to `feed` (`feedB_no_bad`), not over histories.
+* The orphan pool has no capacity in the model (`orphanpool.go` evicts); the in-memory cache of errored blocks is
+  not modelled (`feedB`: a block is fed once per process life).
 * Convergence after a crash *before* the marker write: false for "the same blocks" (witness 1); that one
   more block on the longer branch brings both runs to the same observable state is checked by the harness
   on the real code at every such crash point, not proved.
